@@ -5,6 +5,8 @@ open Foundation.Panic Driver
 
 /-- a scripted item as the model sees it: the first `panic` / `fail` step decides -/
 def itemOf (script : String) : Item :=
+  -- an item whose validation panics (before its body starts) is a panicking item like any other
+  if script = "aclpanic" then .panics else
   let steps := script.splitOn "+"
   match steps.find? (fun s => s = "panic" ∨ s = "fail") with
   | some "panic" => .panics
